@@ -6,7 +6,7 @@ import coqlit as L
 import ftutil as U
 
 ID = "C19"
-THEOREMS = ["C19_two_finger", "C19_skip_ahead", "C19_leader_follower", "C19_batching",
+THEOREMS = ["C19_two_finger", "C19_skip_ahead", "C19_leader_follower", "C19_leader_follower_style", "C19_batching",
             "C19_presented_rows", "C19_swaps_tree", "C19_swaps_rounds", "C19_swaps_merge",
             "C19_swaps_values", "C19_merge_unbounded", "C19_swaps_unbounded", "C19_swaps_unbounded_defined",
             "C19_model_meets_spec"]
@@ -17,7 +17,13 @@ CHECKER = "c19_checker"
 CASE_TYPE = "c19_case"
 SHARD = 120
 
-RULE = ("two case kinds. I: a loop nest of depth 0-2 over 1-6 consecutive two-operand intersections "
+RULE = ("three case kinds. L: as I but every intersection is Fiber.intersection(a, b, style='leader-follower') "
+        "(leader ends last / follower entirely below / empty follower / follower ends last), only the two "
+        "leader-follower models fed.  In I and L every outer loop level is declared 'C' or 'U'; a 'U' level "
+        "walks every coordinate 0..n-1 of a fiber that stores only some of them (absent and explicit-default "
+        "coordinates, declared or estimated shape), operands and outer fibers built through ftutil "
+        "(value kinds, staged construction with read-only queries in between).  "
+        "I: a loop nest of depth 0-2 over 1-6 consecutive two-operand intersections "
         "(operands with 0-8 coordinates: empty, disjoint, interleaved, identical, one-sided tails, "
         "explicit-default elements) run under Metrics with intersect_0/1 traced, the traces consumed and "
         "fed to TwoFinger/SkipAhead/LeaderFollower(a)/LeaderFollower(b) models under three schedules "
@@ -75,16 +81,44 @@ def gen_pair(rng, style):
     return a, b
 
 
-def gen_fids(rng, d):
+def gen_fids(rng, d, fmts=None):
+    """outer loop coordinates of the consecutive intersections; a 'U' level is dense from 0"""
+    fmts = fmts or ["C"] * d
+
+    def level(l):
+        if fmts[l] == "U":
+            return list(range(rng.randint(2, 5) if l == d - 1 else rng.randint(1, 3)))
+        return sorted(rng.sample(range(7 if d == 1 else 5), rng.randint(1, 5 if d == 1 else 3)))
     if d == 0:
         return [[]]
     if d == 1:
-        return [[c] for c in sorted(rng.sample(range(7), rng.randint(1, 5)))]
+        return [[c] for c in level(0)]
     out = []
-    for i in sorted(rng.sample(range(5), rng.randint(1, 3))):
-        for j in sorted(rng.sample(range(5), rng.randint(1, 3))):
+    for i in level(0):
+        for j in level(1):
             out.append([i, j])
     return out[:6]
+
+
+def gen_outer(rng, d, fids, fmts):
+    """per level: format, and for a 'U' level which coordinates the outer fiber does not store (holes),
+    stores with the default payload (zeros), and whether its shape is declared or left to be estimated"""
+    outer = []
+    for l in range(d):
+        if fmts[l] != "U":
+            outer.append({"fmt": "C"})
+            continue
+        prefixes = sorted({tuple(f[:l + 1]) for f in fids})
+        ph = rng.choice([0.2, 0.4, 0.6])
+        holes, zeros = [], []
+        for p in prefixes:
+            r = rng.random()
+            if r < ph:
+                holes.append(list(p))
+            elif r < ph + 0.15:
+                zeros.append(list(p))
+        outer.append({"fmt": "U", "holes": holes, "zeros": zeros, "declare": rng.random() < 0.5})
+    return outer
 
 
 def random_sched(rng, n):
@@ -96,16 +130,51 @@ def random_sched(rng, n):
     return s
 
 
-def gen_I(rng, d=None):
-    d = rng.choice([0, 1, 1, 1, 2, 2]) if d is None else d
+def gen_nest(rng, d, pair):
+    fmts = [rng.choice(["C", "C", "U"]) for _ in range(d)]
     style = {"pz": rng.choice([0.0, 0.0, 0.1, 0.3])}
+    fids = gen_fids(rng, d, fmts)
     fibers = []
-    for fid in gen_fids(rng, d):
-        a, b = gen_pair(rng, style)
+    for fid in fids:
+        a, b = pair(rng, style)
         fibers.append([fid, a, b])
     n = len(fibers)
     scheds = [[1] * n, [n], random_sched(rng, n)]
-    return {"kind": "I", "fibers": fibers, "scheds": scheds}
+    return {"fibers": fibers, "scheds": scheds, "outer": gen_outer(rng, d, fids, fmts)}
+
+
+def gen_I(rng, d=None):
+    d = rng.choice([0, 1, 1, 1, 2, 2]) if d is None else d
+    c = gen_nest(rng, d, gen_pair)
+    c["kind"] = "I"
+    return c
+
+
+def gen_pair_lf(rng, style):
+    """leader a, follower b: the follower may end before the leader does (or be empty, or lie entirely below)"""
+    shape = rng.choice([3, 6, 10])
+    a = gen_operand(rng, shape, style)
+    lo = min([c for c, _ in a] or [0])
+    k = rng.random()
+    if k < 0.2:
+        b = []                                                                 # empty follower
+    elif k < 0.4 and lo > 0:
+        b = [[c, rng.choice([0, 1, 2])] for c in sorted(rng.sample(range(lo), rng.randint(1, min(3, lo))))]  # entirely below
+    elif k < 0.6 and a:
+        cut = rng.randint(0, len(a) - 1)
+        b = [[c, 1] for c, _ in a[:cut]]                                        # leader ends last
+    elif k < 0.7:
+        b = copy.deepcopy(a)
+    else:
+        b = gen_operand(rng, shape + 2, style)
+    return a, b
+
+
+def gen_L(rng, d=None):
+    d = rng.choice([0, 1, 1, 1, 2]) if d is None else d
+    c = gen_nest(rng, d, gen_pair_lf)
+    c["kind"] = "L"
+    return c
 
 
 def revalue(t, rng):
@@ -133,15 +202,19 @@ def exhaustive_pairs():
         fb = [[c, 1] for c in b]
         fibers = [[[1], fa, fb], [[4], [[0, 1], [2, 1]], [[0, 1], [1, 1], [3, 1]]], [[5], fb, fa]]
         cases.append({"kind": "I", "fibers": fibers, "scheds": [[1, 1, 1], [3], [2, 1]]})
+        cases.append({"kind": "L", "fibers": fibers, "scheds": [[1, 1, 1], [3]]})
     return cases
 
 
 def streams(tier, rng):
     n = 330 if tier == "quick" else 6000
     m = 150 if tier == "quick" else 3000
+    k = 200 if tier == "quick" else 3000
     yield ("witness-S19", [WITNESS_S19_TAIL, WITNESS_S19_EMPTY], False)
     yield ("witness-swaps", WITNESS_SWAPS, False)
+    yield ("witness-wave3", WITNESS_W3, False)
     yield ("intersect", [gen_I(rng) for _ in range(n)], False)
+    yield ("leader-follower", [gen_L(rng) for _ in range(k)], False)
     yield ("swaps", [gen_S(rng) for _ in range(m)], False)
     if tier == "thorough":
         yield ("exhaustive-4x4", exhaustive_pairs(), True)
@@ -155,6 +228,20 @@ WITNESS_S19_TAIL = {"kind": "I", "scheds": [[1, 1], [2]],
 WITNESS_S19_EMPTY = {"kind": "I", "scheds": [[1, 1], [2]],
                      "fibers": [[[0], [], [[3, 1], [5, 1]]],
                                 [[2], [[0, 1], [4, 1]], [[0, 1], [4, 1]]]]}
+
+
+# wave 3: (A3) leader-follower style with the leader ending last / follower entirely below / empty follower;
+# (B3) an uncompressed outer rank with an absent coordinate preceded by another one, traces consumed in one shot
+_LF = [([0, 2, 3, 4], [1, 2, 4]), ([0, 2, 3], [1, 2, 4, 9]), ([0, 2, 5, 7], [1, 2, 3]), ([4, 5, 6], [0, 1]), ([1, 2, 3], [])]
+WITNESS_W3 = [{"kind": "L", "scheds": [[1] * 3, [3]],
+               "fibers": [[[j], [[c, 1] for c in a], [[c, 1] for c in b]] for j in range(3)]} for a, b in _LF] + [
+    {"kind": "I", "scheds": [[1] * 4, [4]],
+     "fibers": [[[j], [[0, 1], [2, 1], [3, 1]], [[1, 1], [2, 1], [4, 1]]] for j in range(4)],
+     "outer": [{"fmt": "U", "holes": [[1]], "zeros": [], "declare": False}]},
+    {"kind": "I", "scheds": [[1] * 4, [4], [2, 2]],
+     "fibers": [[[j], [[0, 1], [2, 1], [3, 1]], [[1, 1], [2, 1], [4, 1]]] for j in range(4)],
+     "outer": [{"fmt": "U", "holes": [[3]], "zeros": [[1]], "declare": True}]},
+]
 
 
 # the tensors of test/test_compute.py (hand-computed totals 24, 63, 15) plus a two-round unbounded-latency merge
@@ -176,6 +263,8 @@ def occ(f):
 def nontrivial(case):
     if case["kind"] == "I":
         return any(occ(a) and occ(b) for _, a, b in case["fibers"])
+    if case["kind"] == "L":
+        return any(occ(a) for _, a, b in case["fibers"])
     def lists(t, depth):
         if depth > 0:
             return max([lists(s, depth - 1) for _, s in t if not U.is_empty_lit(s)] or [0])
@@ -183,7 +272,32 @@ def nontrivial(case):
     return lists(case["t"], case["depth"]) >= 2
 
 
+def outer_desc(case):
+    outer = case.get("outer") or []
+    us = [o for o in outer if o["fmt"] == "U"]
+    return {"outer_U": bool(us), "outer_U_hole": any(o["holes"] for o in us),
+            "outer_U_hole_after_coord": any(h[-1] > 0 for o in us for h in o["holes"] + o["zeros"])}
+
+
 def describe(case):
+    if case["kind"] == "L":
+        fs = case["fibers"]
+        cls = set()
+        for _, a, b in fs:
+            a, bs = occ(a), [c for c, _ in b]
+            if a and not bs:
+                cls.add("empty-follower")
+            elif a and bs and bs[-1] < a[0]:
+                cls.add("follower-below")
+            elif a and bs and bs[-1] < a[-1]:
+                cls.add("leader-ends-last")
+            elif a and bs:
+                cls.add("follower-ends-last-or-equal")
+        d = {"kind": "L", "nest_depth": len(fs[0][0]), "fibers": len(fs)}
+        for k in ("empty-follower", "follower-below", "leader-ends-last", "follower-ends-last-or-equal"):
+            d["L_" + k] = k in cls
+        d.update(outer_desc(case))
+        return d
     if case["kind"] == "I":
         fs = case["fibers"]
         ends = set()
@@ -203,7 +317,7 @@ def describe(case):
                 "has_empty_side": "empty-side" in ends, "has_match_end": "match-end" in ends,
                 "has_tail": "tail" in ends, "has_identical": "identical" in ends,
                 "has_disjoint": "disjoint" in ends,
-                "explicit_default": any(v == 0 for _, a, b in fs for _, v in a + b)}
+                "explicit_default": any(v == 0 for _, a, b in fs for _, v in a + b), **outer_desc(case)}
     return {"kind": "S", "swap_depth": case["depth"], "radix": case["radix"], "latency": case["lat"],
             "explicit_default_S": U.has_explicit_default(case["t"], 0)}
 
@@ -214,10 +328,12 @@ def zz(f):
 
 
 def case_to_coq(c):
-    if c["kind"] == "I":
+    if c["kind"] in ("I", "L"):
+        # the outer formats / holes are not part of the Coq case: an uncompressed level walks every coordinate,
+        # so the sequence of intersections, their outer coordinates and their stamps are the same
         fs = L.lst("(Build_fpair %s %s %s)" % (L.zlist(fid), zz(a), zz(b)) for fid, a, b in c["fibers"])
         sch = L.lst(L.lst(L.nat(k) for k in s) for s in c["scheds"])
-        return "(CI %s %s)" % (fs, sch)
+        return "(%s %s %s)" % ("CI" if c["kind"] == "I" else "CL", fs, sch)
     return "(CS %s %s %s %s %s)" % (L.tree(c["t"]), L.tree(c["u"]), L.nat(c["depth"]),
                                     L.opt(c["radix"], L.z), L.opt(c["lat"], L.z))
 
@@ -226,18 +342,53 @@ def case_to_coq(c):
 NEST_NAMES = ["I", "J"]
 
 
-def run_nest(fibers, sched, models):
+def run_nest(case, sched, models):
     """run the loop nest under Metrics; after the intersections numbered in `sched` consume both traces and
     feed them to `models` (a list of (object, side) with side in {0, 1, 2=both}); returns
-    (header length, rows0, rows1, per-model list of getNumIntersects() after every call)"""
+    (header length, rows0, rows1, per-model list of getNumIntersects() after every call).
+    Every fiber is built before the metrics session starts (ftutil: value kinds, staged construction)."""
     from fibertree import Fiber, Metrics
+    fibers = case["fibers"]
+    outer = case.get("outer") or []
+    style = case["kind"]
     d = len(fibers[0][0])
-    table = {tuple(f[0]): (f[1], f[2]) for f in fibers}
     order = [tuple(f[0]) for f in fibers]
     cuts = set(itertools.accumulate(sched))
     counts = [[] for _ in models]
     rows = [[], []]
     done = [0]
+
+    def operand(lit):
+        f = U.build_fiber([[c, v] for c, v in lit])
+        f.getRankAttrs().setId("K")
+        return f
+    table = {tuple(f[0]): (operand(f[1]), operand(f[2])) for f in fibers}
+
+    loops = {}
+    for level in range(d):
+        o = outer[level] if level < len(outer) else {"fmt": "C"}
+        for prefix in sorted({p[:level] for p in order}):
+            cs = []
+            for p in order:
+                if p[:level] == prefix and (not cs or cs[-1] != p[level]):
+                    cs.append(p[level])
+            if o["fmt"] == "U":
+                assert cs == list(range(len(cs)))
+                holes = {tuple(h) for h in o["holes"]}
+                zeros = {tuple(z) for z in o["zeros"]}
+                stored = [c for c in cs if prefix + (c,) not in holes]
+                lit = [[c, 0 if prefix + (c,) in zeros else 1] for c in stored]
+                if o["declare"] or not stored or stored[-1] != cs[-1]:
+                    f = Fiber([c for c, _ in lit], [U.dress(v) for _, v in lit], shape=len(cs))
+                    if U.MODE["touch"]:
+                        U.touch(f)
+                else:
+                    f = U.build_fiber(lit)       # shape estimated from the last stored coordinate
+                f.getRankAttrs().setFormat("U")
+            else:
+                f = U.build_fiber([[c, 1] for c in cs])
+            f.getRankAttrs().setId(NEST_NAMES[level])
+            loops[(level, prefix)] = f
 
     def feed():
         t0 = Metrics.consumeTrace("K", "intersect_0")
@@ -253,24 +404,18 @@ def run_nest(fibers, sched, models):
 
     def loop(level, prefix):
         if level == d:
-            a, b = table[prefix]
-            a_k = Fiber([c for c, _ in a], [v for _, v in a])
-            a_k.getRankAttrs().setId("K")
-            b_k = Fiber([c for c, _ in b], [v for _, v in b])
-            b_k.getRankAttrs().setId("K")
-            for _ in a_k & b_k:
-                pass
+            a_k, b_k = table[prefix]
+            if style == "L":
+                for _ in Fiber.intersection(a_k, b_k, style="leader-follower"):
+                    pass
+            else:
+                for _ in a_k & b_k:
+                    pass
             done[0] += 1
             if done[0] in cuts:
                 feed()
             return
-        cs = []
-        for p in order:
-            if p[:level] == prefix and (not cs or cs[-1] != p[level]):
-                cs.append(p[level])
-        f = Fiber(cs, [1] * len(cs))
-        f.getRankAttrs().setId(NEST_NAMES[level])
-        for c, _ in f:
+        for c, _ in loops[(level, prefix)]:
             loop(level + 1, prefix + (c,))
 
     Metrics.beginCollect()
@@ -291,18 +436,19 @@ def run_nest(fibers, sched, models):
 
 
 def run_impl(case):
-    if case["kind"] == "I":
+    if case["kind"] in ("I", "L"):
         from fibertree.model import TwoFingerIntersector, SkipAheadIntersector, LeaderFollowerIntersector
         fibers = case["fibers"]
-        hdr, r0, r1, _ = run_nest(fibers, [len(fibers)], [])
+        hdr, r0, r1, _ = run_nest(case, [len(fibers)], [])
         out = []
         for s in case["scheds"]:
-            models = [(TwoFingerIntersector(), 2), (SkipAheadIntersector(), 2),
-                      (LeaderFollowerIntersector(), 0), (LeaderFollowerIntersector(), 1)]
+            models = [(LeaderFollowerIntersector(), 0), (LeaderFollowerIntersector(), 1)]
+            if case["kind"] == "I":
+                models = [(TwoFingerIntersector(), 2), (SkipAheadIntersector(), 2)] + models
             try:
-                _, _, _, counts = run_nest(fibers, s, models)
+                _, _, _, counts = run_nest(case, s, models)
                 out.append(counts)
-            except (AssertionError, IndexError, AttributeError, TypeError):
+            except (AssertionError, IndexError, AttributeError, TypeError, KeyError):
                 out.append([-1, 1])
         return [hdr, r0, r1, out]
     from fibertree.model import Compute
@@ -324,10 +470,11 @@ def repro_py(case):
 
 
 def shrinks(case):
-    if case["kind"] == "I":
+    if case["kind"] in ("I", "L"):
         fs = case["fibers"]
         n = len(fs)
-        if n > 1:
+        has_u = any(o["fmt"] == "U" for o in case.get("outer") or [])
+        if n > 1 and not has_u:
             for i in range(n):
                 c = copy.deepcopy(case)
                 del c["fibers"][i]
@@ -346,6 +493,13 @@ def shrinks(case):
                 c = copy.deepcopy(case)
                 del c["scheds"][i]
                 yield c
+        for l, o in enumerate(case.get("outer") or []):
+            if o["fmt"] == "U":
+                for key in ("holes", "zeros"):
+                    for i in range(len(o[key])):
+                        c = copy.deepcopy(case)
+                        del c["outer"][l][key][i]
+                        yield c
     else:
         def drops(t):
             for i in range(len(t)):
@@ -363,4 +517,4 @@ def shrinks(case):
 
 
 def search(disagreeing, rng, rnd):
-    return [gen_I(rng) for _ in range(150)] + [gen_S(rng) for _ in range(80)]
+    return [gen_I(rng) for _ in range(150)] + [gen_L(rng) for _ in range(80)] + [gen_S(rng) for _ in range(80)]
